@@ -53,6 +53,7 @@ func checkC08(c *Ctx, r *Report) {
 	hintWidth(c, r, "C08.R1.hint-width")
 	windowGuardsAgree(c, r, "C08.R1.window-guards")
 	lenSearchKey(c, r, "C08.R2.len-search-key", "Len() is smaller than the packed message for names spelled in two letter cases")
+	c03NameBuffers(c, r, "C08.R3.name-buffers")
 }
 
 func c08Header(c *Ctx, r *Report) {
